@@ -323,8 +323,10 @@ def finish_case(case: dict, st: tuple, exc: BaseException | None) -> tuple:
     if flow == 'sabre':
         fails += _walk(case, circ, lv, init, final, desc)
     else:
-        f, applied = _pam_barriers(case, circ, out, m, init, desc)
-        fails += f
+        applied = 0
+        if not bad:                 # only meaningful on a correct program
+            f, applied = _pam_barriers(case, circ, out, m, init, desc)
+            fails += f
         flags['pam_barrier_checks'] = applied
     flags['swaps'] = nswaps
     flags['nontrivial'] = int(
@@ -461,8 +463,15 @@ def _pam_barriers(case: dict, circ: Circuit, out: Circuit, m: int,
             continue                 # cut not forced / position ambiguous
         applied += 1
         uprefix = M8.unitary_of(w, M8.flatten(M8.build(w, ops[:bi])))
+        # cut = everything that is not in the causal future of the barrier
         a = Circuit(m)
-        for op in outl[:oi]:
+        tainted = set(outl[oi].location)
+        for j, op in enumerate(outl):
+            if j == oi:
+                continue
+            if j > oi and tainted & set(op.location):
+                tainted |= set(op.location)
+                continue
             a.append(op)
         mats = [(np.asarray(g.get_unitary(p)), loc)
                 for g, loc, p, _ in leaves(a)
@@ -477,9 +486,11 @@ def _pam_barriers(case: dict, circ: Circuit, out: Circuit, m: int,
                 found.append(pos)
         if not found:
             return [(
-                'pam-prefix-before-barrier-is-not-the-input-prefix',
-                f'{desc}: the operations before barrier #{applied} do not '
-                'implement the input operations before that barrier',
+                'pam-barrier-misplaced',
+                f'{desc}: barrier on logical {sorted(S)} sits on physical '
+                f'{sorted(got)}; it does not separate the input operations '
+                'before it from those after it (the whole circuit is right '
+                'under the recorded mappings)',
             )], applied
         want = [{p[l] for l in S} for p in found]
         if got not in want:
